@@ -460,6 +460,31 @@ def _from_call(f, h, c, depth=0):
     return False
 
 
+def rule_copy_slots(ctx, rep, config="c-lib"):
+    rep.rule("C03-copy-slots", "copy_anode keeps every child of the original except the slot that is being filled: every comparison of the child index with the `disp' "
+                               "parameter inside copy_anode is an equality (a relational test empties the slots on one side of it -- translations already placed there "
+                               "are lost in the copy and read as nil)")
+    from ..model import strip_int_casts
+    p = ctx.prog(config)
+    f = p.fn("copy_anode")
+    rep.cover(p, [f.name])
+    n = 0
+    for c in f.all_insts():
+        if c.op != "icmp":
+            continue
+        ops = [strip_int_casts(f, o) for o in c.ops]
+        if not any(o.get("k") == "a" and o.get("v") == 3 for o in ops):
+            continue
+        n += 1
+        key = "copy_anode/slot-test#%d" % n
+        if c.d["pred"] in ("eq", "ne"):
+            rep.ok("C03-copy-slots", key, sample={"test": c.where()})
+        else:
+            rep.violation("C03-copy-slots", key, "the copy drops the original's children by a `%s' test on the slot index: all slots on one side of the slot being filled "
+                          "are emptied, a child translated earlier is missing in the copy" % c.d["pred"], where=c.where(), witness=[c.where()])
+    rep.floor("C03-copy-slots", "tests of the child index against disp in copy_anode", n, 1)
+
+
 def rule_copy_consistency(ctx, rep, config="c-lib"):
     rep.rule("C03-copy", "copy_anode (place, node, rule, disp) sizes and copies the child array of `node' by `rule': at every call the node and the rule are the `anode' and "
                          "`rule' members of one and the same parse state (the rule the node was created for), never the rule of the symbol being reduced")
